@@ -531,8 +531,132 @@ def run_R(case):
     return {"behaviour": [fam, "refit", len(viol)], "violations": viol, "stats": {"fits": 5}}
 
 
+
+# ------------------------------------------------------------------ P: one-field settings profiles, fitted and stored
+DEV = {"developer_mode": True, "silent_developer_mode": True}
+HOURLY_PROFILES = [  # every field of the hourly settings tree moved to another accepted value, one at a time (seed fixed)
+    ("en.fit_intercept=False", {"elasticnet": {"fit_intercept": False}}),
+    ("en.precompute=True", {"elasticnet": {"precompute": True}}),
+    ("en.copy_x=False", {"elasticnet": {"copy_x": False}}),
+    ("en.selection=random", {"elasticnet": {"selection": "random"}}),
+    ("en.alpha=0.1", {"elasticnet": {"alpha": 0.1}}),
+    ("en.l1_ratio=0.9", {"elasticnet": {"l1_ratio": 0.9}}),
+    ("en.max_iter=500", {"elasticnet": {"max_iter": 500}}),
+    ("en.tol=1e-3", {"elasticnet": {"tol": 1e-3}}),
+    ("en.adaptive_weights", {"elasticnet": {"adaptive_weights": True, "adaptive_weight_max_iter": 3, "adaptive_weight_tol": 1e-4}}),
+    ("scaling=standardscaler", {"scaling_method": "standardscaler"}),
+    ("scaling=robustscaler", {"scaling_method": "robustscaler"}),
+    ("bins.equal_sample_count", {"temperature_bin": {"method": "equal_sample_count", "n_bins": 6, "bin_width": None, "include_edge_bins": False,
+                                                      "edge_bin_rate": None, "edge_bin_percent": None}}),
+    ("bins.equal_bin_width", {"temperature_bin": {"method": "equal_bin_width", "n_bins": 5, "bin_width": None, "include_edge_bins": False,
+                                                   "edge_bin_rate": None, "edge_bin_percent": None}}),
+    ("bins.width=8", {"temperature_bin": {"bin_width": 8.0}}),
+    ("bins.no_edge_bins", {"temperature_bin": {"include_edge_bins": False, "edge_bin_rate": None, "edge_bin_percent": None}}),
+    ("bins.edge_rate=0.5", {"temperature_bin": {"edge_bin_rate": 0.5}}),
+    ("bins.edge_percent=0.1", {"temperature_bin": {"edge_bin_percent": 0.1}}),
+    ("bins=None", {"temperature_bin": None}),
+    ("tc.wavelet_n_levels=3", {"temporal_cluster": {"wavelet_n_levels": 3}}),
+    ("tc.wavelet_name=db2", {"temporal_cluster": {"wavelet_name": "db2"}}),
+    ("tc.wavelet_mode=symmetric", {"temporal_cluster": {"wavelet_mode": "symmetric"}}),
+    ("tc.pca=0.8", {"temporal_cluster": {"pca_min_variance_ratio_explained": 0.8}}),
+    ("tc.recluster_count=1", {"temporal_cluster": {"recluster_count": 1}}),
+    ("tc.n_cluster=3..8", {"temporal_cluster": {"n_cluster_lower": 3, "n_cluster_upper": 8}}),
+    ("tc.min_cluster_size=2", {"temporal_cluster": {"min_cluster_size": 2}}),
+    ("tc.score=silhouette_median", {"temporal_cluster": {"score_metric": "silhouette_median"}}),
+    ("tc.score=variance_ratio", {"temporal_cluster": {"score_metric": "variance_ratio"}}),
+    ("tc.score=davies-bouldin", {"temporal_cluster": {"score_metric": "davies-bouldin"}}),
+    ("tc.distance=manhattan", {"temporal_cluster": {"distance_metric": "manhattan"}}),
+    ("tc.distance=cosine", {"temporal_cluster": {"distance_metric": "cosine"}}),
+    ("min_daily_training_hours=20", {"min_daily_training_hours": 20}),
+    ("thresholds", {"cvrmse_threshold": 0.3, "pnrmse_threshold": 0.9}),
+    ("train_features=temperature", {"train_features": ["temperature"]}),
+]
+DAILY_PROFILES = [  # accepted non-default profiles of the daily family (developer-only fields with developer mode on)
+    ("season_map", {"season": {"march": "winter", "october": "summer"}}),
+    ("weekday_map", {"weekday_weekend": {"friday": "weekend", "sunday": "weekday"}}),
+    ("uncertainty_alpha=0.05", {"uncertainty_alpha": 0.05}),
+    ("dev.no_smoothing", dict(DEV, allow_smooth_model=False)),
+    ("dev.alpha_final=2", dict(DEV, alpha_final=2.0, alpha_final_type="all")),
+    ("dev.regularization", dict(DEV, regularization_alpha=0.01, regularization_percent_lasso=0.5)),
+    ("dev.segment_minimum_count=10", dict(DEV, segment_minimum_count=10)),
+    ("dev.maximum_slope_OoM_scaler=1", dict(DEV, maximum_slope_OoM_scaler=1.0)),
+    ("dev.initial_smoothing_parameter", dict(DEV, initial_smoothing_parameter=[1.0, 1.0])),
+    ("dev.split.criteria=aic", dict(DEV, split_selection={"criteria": "aic"})),
+    ("dev.split.no_weekend", dict(DEV, split_selection={"allow_separate_weekday_weekend": False})),
+    ("dev.split.no_gaussian", dict(DEV, split_selection={"reduce_splits_by_gaussian": False})),
+    ("dev.cvrmse_threshold=0.05", dict(DEV, cvrmse_threshold=0.05)),
+    ("dev.algorithm=scipy_slsqp", dict(DEV, algorithm_choice="scipy_slsqp")),
+    ("dev.initial_guess=nlopt_direct", dict(DEV, initial_guess_algorithm_choice="nlopt_direct")),
+]
+
+
+def cases_P(tier):
+    hp = HOURLY_PROFILES
+    out = [{"part": "P", "family": "hourly", "profile": n, "tier": tier} for n, _ in hp]
+    dp = DAILY_PROFILES if tier == "thorough" else DAILY_PROFILES[::2]
+    out += [{"part": "P", "family": "daily", "profile": n, "tier": tier} for n, _ in dp]
+    if tier == "thorough":
+        out += [{"part": "P", "family": "billing", "profile": n, "tier": tier} for n, _ in DAILY_PROFILES[:3]]
+        out += [{"part": "P", "family": "hourly_solar", "profile": n, "tier": tier} for n, _ in HOURLY_PROFILES[:12]]
+    return out
+
+
+def run_P(case):
+    import opendsm.eemeter as em
+
+    fam, name = case["family"], case["profile"]
+    key0 = {"part": "profiles", "family": fam, "profile": name}
+    if fam.startswith("hourly"):
+        over = dict(next(o for n, o in HOURLY_PROFILES if n == name))
+        settings = dict({"seed": 7}, **over)
+        if fam == "hourly_solar" and "train_features" in settings:
+            settings["train_features"] = ["temperature", "ghi"]
+        cls = em.HourlyModel
+    else:
+        settings = dict(next(o for n, o in DAILY_PROFILES if n == name))
+        cls = em.DailyModel if fam == "daily" else em.BillingModel
+    try:
+        model = cls(settings=settings)
+    except Exception as exc:
+        return {"rejected": f"profile not accepted by the constructor: {type(exc).__name__}"}
+    frame = c02.baseline_frame(fam, 365, seed=0)
+    try:
+        c02.fit(fam, model, c02.make_baseline(fam, frame))
+    except Exception as exc:
+        # no model, nothing stored: outside this property (whether an accepted profile can be fitted is C04's "fit returns a model or
+        # raises DataSufficiencyError"); counted and listed
+        return {"rejected": f"accepted profile cannot be fitted: {type(exc).__name__}: {str(exc)[:80]}"}
+    viol = []
+    try:
+        js1 = model.to_json()
+        m2 = cls.from_json(js1)
+        js2 = m2.to_json()
+        m3 = cls.from_dict(model.to_dict())
+    except Exception as exc:
+        return {"behaviour": [fam, name, "roundtrip_raises"],
+                "violations": [{"clause": "roundtrip_raises", "key": dict(key0, exc=type(exc).__name__), "detail": f"{type(exc).__name__}: {str(exc)[:300]}"}]}
+    if not same_doc(js1, js2) or not same_doc(m3.to_json(), js1):
+        a, b = json.loads(js1), json.loads(js2)
+        viol.append({"clause": "document_not_reproduced", "key": key0, "detail": f"top-level keys differing {sorted(k for k in a if a.get(k) != b.get(k))}"})
+    if describe(m2) != describe(model):
+        viol.append({"clause": "metadata_lost", "key": key0, "detail": f"{describe(model)} vs {describe(m2)}"})
+    sets = reporting_sets(fam, "quick")
+    n = 0
+    for sn, d in sets[::2]:
+        outs = []
+        for m in (model, m2, m3):
+            try:
+                outs.append(F.fp(c02.predict(fam, m, d)))
+            except Exception as exc:
+                outs.append("raise:" + type(exc).__name__)
+        n += 1
+        if len(set(outs)) != 1:
+            viol.append({"clause": "prediction_differs_after_roundtrip", "key": key0, "detail": f"predict({sn}): live / from_json / from_dict give {outs}"})
+    return {"behaviour": [fam, name, len(viol)], "violations": viol, "stats": {"fits": 1, "sets": n}}
+
+
 def run_case(case):
-    return {"A": run_A, "B": run_B, "R": run_R}[case["part"]](case)
+    return {"A": run_A, "B": run_B, "R": run_R, "P": run_P}[case["part"]](case)
 
 
 def cases_B(tier):
@@ -548,12 +672,14 @@ def cases_B(tier):
 def run(tier, seed):
     with poolmod.Pool() as pool:
         exB = explore.explore(pool, "B fitted models: history graphs", MOD, "run_case", cases_B(tier), seed=seed, chunk=1)
+        exP = explore.explore(pool, "P one-field settings profiles: fit, store, load", MOD, "run_case", cases_P(tier), seed=seed, chunk=1)
         exA = explore.explore(pool, "A document-built models", MOD, "run_case", cases_A(tier), seed=seed)
     states = exB.stats.get("states", 0)
     trans = exB.stats.get("transitions", 0)
     cov = explore.merge_coverage(
-        [exA, exB],
-        rule="A: one case = one daily/billing model document (shape, lattice point | split layout with mixed shapes, settings profile) "
+        [exA, exB, exP],
+        rule="P: one case = one settings profile that differs from the approved one in a single field (33 hourly, 15 daily; fitted, "
+        "stored through to_json and to_dict, loaded, predicted on four reporting sets); A: one case = one daily/billing model document (shape, lattice point | split layout with mixed shapes, settings profile) "
         "loaded, round-tripped twice and predicted on ~100 temperatures reaching 70F beyond the fitted range incl. NaN, with/without "
         "usage; B: one case = one fitted model (family x profile): BFS over {to_json->from_json, to_dict->from_dict, predict(R_i)} "
         "with all 8 reporting sets re-predicted in every state",
@@ -565,7 +691,7 @@ def run(tier, seed):
                                     "model round-trips onto an identical object"},
     )
     cov["graph_summaries"] = exB.extras
-    return {"level": LEVEL, "coverage": cov, "violations": exA.violations + exB.violations, "assumptions": ASSUMPTIONS}
+    return {"level": LEVEL, "coverage": cov, "violations": exA.violations + exB.violations + exP.violations, "assumptions": ASSUMPTIONS}
 
 
 def replay(rep):
